@@ -80,6 +80,11 @@ func runC16(ctx *Ctx, idx int) Result {
 	r := gen.New(seed)
 	SeedGlobalRand(seed)
 	cfg := driver.Config{MemOnly: !cs.file}
+	if cs.file && idx%5 == 4 {
+		// a recycling item allocator: whoever keeps a key of an item it has released reads garbage
+		cfg.RefMon, cfg.Recycle = true, true
+		ctx.Stats["c16.recycling-allocator-cases"]++
+	}
 	if cs.file && idx%5 == 2 {
 		cfg.CB = driver.CBSwap // items are stored in an encoded form, undone by AfterItemRead on every load
 		ctx.Stats["c16.item-codec-cases"]++
@@ -258,6 +263,8 @@ func runC16(ctx *Ctx, idx int) Result {
 		check("VisitItemsAscendBlockEx/nested-outer", func(v gkvlite.ItemVisitorEx) error {
 			k := 0
 			return c.VisitItemsAscendBlockEx(false, manglers[2].f, func(i *gkvlite.Item, d uint64) bool {
+				// the item is looked at first: the nested visit below may evict (release) it
+				res := v(i, d)
 				if k == cs.n/2 {
 					inner := map[string]int{}
 					var err error
@@ -276,7 +283,7 @@ func runC16(ctx *Ctx, idx int) Result {
 					}
 				}
 				k++
-				return v(i, d)
+				return res
 			})
 		})
 		if !innerOK && !e.Failed() {
